@@ -20,6 +20,7 @@ EXPLANATION = (
     "distance around the seam of a wrapping world is that the function reads wrap_env and the extents.")
 EXPLANATION += (' get_agents_at has no raise statement of its own (an empty box answers []).')
 EXPLANATION += (' A path that returns every agent unfiltered is a violation.')
+EXPLANATION += (" Premises: C04's residency rules for add_agent / remove_agent; no class-level alias captures them.")
 ASSUMPTIONS = ["float rounding at box faces is not decided", "dict preserves insertion order"]
 
 PC = ENV + 'PositionComponent'
@@ -204,6 +205,12 @@ def run(cx: Cx):
     check_overrides_forward(cx, fn.qualname.rsplit('.', 1)[0], ['get_agents_at'])
     # the position tested is the agent's own PositionComponent: agent[PositionComponent] is the exact-key lookup C03 verifies (a
     # look-up that also answers for subclasses, or for another key, tests some other component's coordinates)
+    # the agents that are asked are the residents, each with a position: residency and placement are C04's and C08's (the deprecated
+    # spelling that skips the world's add_agent leaves a resident without a position, and every later query raises)
+    include_premises(cx, ['C04'], 'the query filters the residents: one agent per identifier, added by add_agent only',
+                     only=lambda o: (o.function or '').endswith(('.add_agent', '.remove_agent')) and o.rule in ('R-DISC', 'R-GUARD', 'R-ATOMIC', 'R-NONE'))
+    from .common import check_no_static_alias
+    check_no_static_alias(cx, CORE + 'Environment', ['add_agent', 'remove_agent'])
     include_premises(cx, ['C03'], "the position tested is the agent's PositionComponent: component look-up by exact type",
                      only=lambda o: o.rule in ('R-GUARD', 'R-FWD') and ('get_component' in (o.function or '') or '__getitem__' in (o.function or '')))
 
